@@ -123,6 +123,7 @@ type c16Runner struct {
 	rebuilds int
 	noReset  bool
 	seedKeys []string
+	all      []*vMember // every member of the cluster the vectors are sent to (m is the one that receives them)
 }
 
 type c16Out struct {
@@ -190,6 +191,24 @@ func (r *c16Runner) report(class string, args []string, format string, a ...inte
 	}
 	r.classes[class] = true
 	v := vcommon.NewViolation("C16", r.part, class, mkVec(args), format, a...)
+	if strings.HasPrefix(class, "hang:") {
+		// where everything stands: the stacks of all goroutines at the moment the handler was declared wedged
+		buf := make([]byte, 1<<20)
+		buf = buf[:runtime.Stack(buf, true)]
+		var keep []string
+		for _, g := range strings.Split(string(buf), "\n\n") {
+			if strings.Contains(g, "olric/internal/") || strings.Contains(g, "olric.(") {
+				if len(g) > 3000 {
+					g = g[:3000]
+				}
+				keep = append(keep, g)
+			}
+			if len(keep) >= 60 {
+				break
+			}
+		}
+		v.History = vcommon.MustJSON(keep)
+	}
 	if vcommon.Known(class) {
 		r.col.ExcludedKnown()
 		return
@@ -234,13 +253,33 @@ func (r *c16Runner) populate() {
 		}
 	}
 	for i, key := range r.seedKeys {
-		_ = r.m.db.dmap.VerifPutEntry("d", key, partitions.PRIMARY, []byte("v"), 0, int64(1000+i))
+		// on the member that owns the key (the receiving member forwards to it)
+		owner := r.m
+		if len(r.all) > 1 {
+			name := r.m.db.primary.PartitionByHKey(partitions.HKey("d", key)).Owner().String()
+			for _, mm := range r.all {
+				if mm.name == name {
+					owner = mm
+				}
+			}
+		}
+		_ = owner.db.dmap.VerifPutEntry("d", key, partitions.PRIMARY, []byte("v"), 0, int64(1000+i))
+	}
+}
+
+// resetAll wipes the DMaps of every member: a vector must not meet what earlier vectors left on the other member
+// (a key that an earlier DM.PUT created there makes "DM.LOCK d k 999999" wait, as it should, for 999999 s)
+func (r *c16Runner) resetAll() {
+	for _, mm := range r.all {
+		if mm.alive {
+			mm.db.dmap.VerifResetDMaps()
+		}
 	}
 }
 
 func (r *c16Runner) runOnce(args []string, name string, populated bool) {
 	if !r.noReset {
-		r.m.db.dmap.VerifResetDMaps()
+		r.resetAll()
 		if populated {
 			r.populate()
 		}
@@ -289,6 +328,7 @@ func (r *c16Runner) rebuild() {
 		return
 	}
 	r.m = cl.live()[0]
+	r.all = cl.live()
 	r.rebuilds++
 }
 
@@ -318,7 +358,7 @@ func c16Setup(t *testing.T, part string, members int) (*c16Runner, *vCluster) {
 	if err != nil {
 		t.Fatalf("inconclusive: %v", err)
 	}
-	r := &c16Runner{opts: opts, m: cl.live()[0], col: vcommon.NewCollector("C16", part), part: part, hungCmds: map[string]bool{}, classes: map[string]bool{}}
+	r := &c16Runner{opts: opts, m: cl.live()[0], all: cl.live(), col: vcommon.NewCollector("C16", part), part: part, hungCmds: map[string]bool{}, classes: map[string]bool{}}
 	r.startWorker()
 	t.Cleanup(r.col.Flush)
 	return r, cl
